@@ -100,7 +100,11 @@ func replayAny(o *Out, lines []string) {
 			}
 		case "hop":
 			if h != nil {
-				h.hop()
+				k := ""
+				if len(f) > 1 {
+					k = f[1]
+				}
+				h.hop(k)
 			}
 		case "sm":
 			smr.replay([]string{l})
